@@ -27,6 +27,7 @@ import (
 	"github.com/glowlabs-org/gca-backend/server"
 
 	"verifh/shim/vmrand"
+	"verifh/shim/vos"
 	"verifh/shim/vtime"
 )
 
@@ -39,6 +40,7 @@ type opsWorld struct {
 	firstServed map[uint32]string
 	Served      map[uint32][]byte
 	lastArchive []byte
+	Armed       string // injected failure for the next operation ("file:stage")
 }
 
 // extraCheck is a hook for scenario-specific oracles (C14 inspects the zip).
@@ -131,6 +133,37 @@ func parsePower(s string) uint64 {
 func (w *opsWorld) apply(op string) (r opResult) {
 	parts := strings.Split(op, ":")
 	var panicked string
+	if parts[0] == "fail" {
+		// fail:<file>:<open|write> - the next operation's open / write of that file fails (EACCES / ENOSPC)
+		w.Armed = parts[1] + ":" + parts[2]
+		return
+	}
+	if w.Armed != "" {
+		a := strings.Split(w.Armed, ":")
+		vos.FailNext(a[0], a[1])
+		armed := a[0]
+		w.Armed = ""
+		defer vos.ClearFaults()
+		if parts[0] == "reg" && armed == "gcaPubKey.dat" && !w.M.Registered {
+			// a registration that cannot be persisted must fail as a whole: status 500, nobody registered
+			gca := key(parts[1])
+			gr := server.GCARegistration{GCAKey: gca.Pub}
+			gr.Signature = glow.Sign(refRegistrationSigningBytes(gca.Pub), w.signerPriv(parts[2]))
+			wouldSucceed := refVerify(w.Temp.Pub, refRegistrationSigningBytes(gr.GCAKey), gr.Signature)
+			body, _ := json.Marshal(gr)
+			var code int
+			if p := safely(func() { code, _ = w.httpDo("POST", "/api/v1/register-gca", body) }); p != "" {
+				w.Poisoned = true
+				r.Sig, r.Obs, r.Want = "panic/reg-with-failing-write", p, "no panic"
+				return
+			}
+			r.Obs, r.Want = fmt.Sprint(code), "500"
+			if wouldSucceed && r.Obs != r.Want {
+				r.Sig = "register-status-with-failing-write"
+			}
+			return
+		}
+	}
 	switch parts[0] {
 	case "reg":
 		gca := key(parts[1])
